@@ -16,6 +16,11 @@ Part L (late routers): the first request is handed down while no router is attac
                   (NetworkServiceElement.startup(), i_am_router_to_network(), or answers to a Who-Is-Router-To-Network
                   without a network number: lists of several networks from routers with 3+ ports); when that has come
                   to rest the same request is handed down again.  Both must arrive, exactly once each.
+Part N (lost announcements): the LANs may lose an I-Am-Router-To-Network (nobody repeats one).  A station asks for a network
+                  beyond a router (its packet waits for the path); when that has come to rest a station of the far side
+                  originates traffic (which shows everybody it passes the way back, SNET/SADR); when that has come to rest
+                  the first station repeats its request.  Whoever has been shown the way -- by an announcement or by routed
+                  traffic -- must get its packets through, the waiting one and every later one, exactly once.
 Part P (pairs):   two requests handed down back to back (same or different sources) on the small trees, so that
                   packets wait together for one path and discoveries run into each other.
 Part H (hop count): stations' LAN ports emit crafted NPDUs with initial hop count 0..3.
@@ -43,7 +48,9 @@ RULE = ("configurations: every unlabeled tree of N networks joined by routers wi
         "local and/or net:mac form, an unused MAC of every network, local broadcast, remote broadcast to every network, "
         "to a network that does not exist, global broadcast}, and on the small trees every ordered pair of routed requests; "
         "histories: every order in which the LANs deliver their oldest frame that departs from global FIFO at most d times "
-        "(each LAN keeps its own order).  Every execution runs the real network layers to quiescence on fresh objects and "
+        "(each LAN keeps its own order); in the lost-announcement part a deviation is also the loss of one "
+        "I-Am-Router-To-Network frame, and the inputs are (request of a station for a network beyond a router, then a routed "
+        "request of a station of the far side, then the first request again), each handed down when the network has come to rest.  Every execution runs the real network layers to quiescence on fresh objects and "
         "is judged against the reference; a case is distinct by (configuration, requests, choice sequence); states are "
         "canonical snapshots (routing tables, parked packets, frames in flight per LAN, what was handed up) after every "
         "delivery.")
@@ -63,6 +70,12 @@ ASSUMPTIONS = [
     "announcement; a global broadcast sent while no router is attached is a broadcast on the sender's network; with "
     "'lask' (Who-Is-Router-To-Network without a network number, answered with the directly connected networks only) "
     "delivery is required for networks at most one router away and permitted beyond",
+    "lost announcements: only I-Am-Router-To-Network frames are lost (a loss is offered when the frame is the oldest in "
+    "flight; when a frame is lost makes no difference); bacpypes never repeats a Who-Is-Router-To-Network, so in an execution "
+    "with a loss a routed request has to arrive only if its originator has been shown the way to the target network by what "
+    "its LAN really delivered to it -- an I-Am-Router-To-Network naming the network, or a routed frame whose SNET is that "
+    "network (in a tree every router on the way back has forwarded that very frame) --, otherwise it may wait for ever "
+    "(counted, not judged); everything else (exactly once, nobody else, source shown, replies) is judged as always",
     "a station that does not know its own network number addresses its own network in local form only (DESIGN.md scope decision)",
     "warm tables are what the real startup announcements teach (learned once per configuration through the real handlers, "
     "checked equal, then written by the same calls); 'rwarm' empties the stations' tables afterwards, 'rcold' the routers' "
@@ -78,13 +91,18 @@ BOUNDS = {
              "up to symmetry on trees of 2..3 networks with at most one network of 2 stations and of 4 networks with one station "
              "each, tables warm/cold/rcold, d<=1; late routers (startup / i_am_router_to_network / Who-Is-Router without number) on "
              "the same populations, d<=1 (i_am_router_to_network at 4 networks: d=0); "
+             "lost announcements (tables cold): trees of 2..3 networks with one station each, any far station and routed request, "
+             "one loss or one delivery out of turn; trees of 2..3 networks with one network of 2 stations and of 4 networks with "
+             "one station each, far traffic that comes past the originator, FIFO with at most one loss; "
              "pairs on trees of 2..3 networks with one station each; "
              "crafted hop counts 0..3 on the 4-network shapes; rings of 3 and 4 (+tail), d<=1 (d=0 where a broadcast circles)",
     "thorough": "trees of 2..5 networks (d<=2 up to 4 networks, d<=1 at 5 networks with at most 7 stations), one network with 3 "
                 "stations up to 4 networks, mixed and address-less populations (d<=1), immediate and late replies; a router with an "
                 "application on all trees of 2..4 networks with 1..2 stations per network, tables cold/warm/rwarm/rcold (d<=2 with one "
                 "station each, else d<=1); late routers on all trees of 2..4 networks with 1..2 stations per network (d<=1, d<=2 up to "
-                "3 networks with one station each); pairs on "
+                "3 networks with one station each); lost announcements (tables cold and rwarm, any far station and routed request): "
+                "trees of 2..3 networks with at most one network of 2 stations, losses + deliveries out of turn <= 2, "
+                "4 networks with one station each <= 1; pairs on "
                 "trees of 2..3 networks (d<=2 with one station each) and the 4-network shapes with one station each; crafted "
                 "hop counts 0..3 on all shapes; rings of 3 and 4 (+tail) d<=2 (d<=1 where a broadcast circles)",
 }
@@ -165,6 +183,25 @@ def routed_scenarios(ref, src):
     return out
 
 
+def loss_scenarios(ref, src, wide):
+    """(first request of src, far station, its request): src asks for a network beyond a router; a station of that
+    network (wide: any other station) then originates traffic (narrow: traffic that comes past src -- a unicast to it,
+    a broadcast to its network, a global broadcast; wide: any routed request); then src repeats its request."""
+    out = []
+    sn = ref.stations[src][0]
+    for d1 in routed_scenarios(ref, src):
+        if d1[0] == "gb":
+            continue            # needs no path
+        tn = ref.target_nets(src, d1)[0]
+        for p in range(len(ref.stations)):
+            if p == src or (not wide and ref.stations[p][0] != tn):
+                continue
+            for d2 in routed_scenarios(ref, p):
+                if wide or d2[0] == "gb" or (d2[0] == "u" and d2[1] == src) or (d2[0] == "rb" and d2[1] == sn):
+                    out.append((d1, p, d2))
+    return out
+
+
 def plan(tier, seed):
     items = []
     quick = (tier == "quick")
@@ -227,6 +264,25 @@ def plan(tier, seed):
                 for know in ("K", "U"):
                     for src in range(sum(v)):
                         items.append(("tree", topo, cache, know, "now", d, src))
+    # N: an I-Am-Router-To-Network may be lost; traffic from the far side shows the way instead
+    for (n, routers) in shapes:
+        if n > 4:
+            continue
+        for v in F.station_vectors(n, routers):
+            if sum(v) > (n + 1 if n <= 3 else n):
+                continue
+            topo = F.concrete(n, routers, v, seed, F.shape_label(n, routers, v))
+            # (deviations, cost of a delivery out of turn, any far traffic)
+            if quick:
+                # up to 3 networks with one station each: one lost announcement or one delivery out of turn, any far traffic;
+                # otherwise FIFO with one lost announcement and far traffic that comes past the originator
+                how = (1, 1, True) if (n <= 3 and sum(v) == n) else (1, 99, False)
+            else:
+                how = (2, 1, True) if n <= 3 else (1, 1, True)
+            for cache in ("cold",) if quick else ("cold", "rwarm"):
+                for know in ("K", "U"):
+                    for src in range(sum(v)):
+                        items.append(("loss", topo, cache, know, "now", how, src))
     # P
     for (n, routers) in shapes:
         if n > (3 if quick else 4):
@@ -356,10 +412,7 @@ def _forward_problems(c, par, loop_free, sysm):
 
 def _iam_router_nets(f):
     """Network numbers listed by an I-Am-Router-To-Network frame (clause 6.4.2), [] for anything else."""
-    if f["n"].get("netmsg") != 1:
-        return []
-    p = f["n"]["payload"]
-    return [(p[i] << 8) | p[i + 1] for i in range(0, len(p) - 1, 2)]
+    return F.iam_router_nets(f["n"])
 
 
 def _released_later(f, frames, apdu, ref):
@@ -385,6 +438,8 @@ def loss_hint(sysm, frames, apdu, target_nets, ref=None, origin=None, known=None
             on = ref.stations[origin][0]
             if any(f["net"] == on and f["serial"] in delivered and ref.nets[target_nets[0]] in _iam_router_nets(f) for f in frames):
                 return "never-put-on-the-wire-although-a-router-to-the-network-was-heard"
+            if F.path_shown(ref, frames, delivered, origin, target_nets[0]) == "routed-traffic":
+                return "never-put-on-the-wire-although-routed-traffic-from-the-network-was-heard"
         return "never-put-on-the-wire"
     hints = set()
     delivered = set(sysm.order)
@@ -485,7 +540,9 @@ def judge(sysm, ref, part, sends, frame_bound=None, waves=None, cache=None):
             problems.append(("deliver:octets-handed-up-that-nobody-sent", {"station": d[0], "octets": d[5]}))
         elif (d[3], d[4]) != ((1, 8) if known_payloads[d[5]] == "req" else (1, 0)):
             problems.append(("deliver:apdu-header-altered", {"station": d[0], "type": d[3], "service": d[4]}))
-    info = {"forwarded": forwarded, "held": held, "handed_to": [], "repliers": [], "copies": 0}
+    info = {"forwarded": forwarded, "held": held, "handed_to": [], "repliers": [], "copies": 0, "lost": len(getattr(sysm, "dropped", ())),
+            "shown": [], "left_waiting": 0}
+    delivered_serials = set(sysm.order)
     for si, (src, dest, hop, payload) in enumerate(sends):
         kind = dest[0]
         req_apdu = REQ_APDU_HDR + payload
@@ -501,6 +558,14 @@ def judge(sysm, ref, part, sends, frame_bound=None, waves=None, cache=None):
             continue
         exp, must, may = expected(ref, part, cache, waves[si] if waves else 0, src, dest, hop)
         tn = ref.target_nets(src, dest)
+        if info["lost"] and len(tn) == 1 and tn[0] != ref.stations[src][0]:
+            # an announcement was lost in this execution and nobody repeats one: the request has to arrive if its
+            # originator has been shown the way by anything its LAN delivered to it, otherwise it may wait for ever
+            shown = F.path_shown(ref, frames, delivered_serials, src, tn[0])
+            info["shown"].append(shown)
+            if shown is None:
+                must = []
+                info["left_waiting"] += 1
         # what a router's own application originates (a request here, a reply below) is a root cause of its own
         mark = len(problems)
         for r in must:
@@ -609,6 +674,18 @@ def shard(item, deadline):
                     _explore(acc, ref, dict(base, sends=[[src, list(d1), None], [s2, list(d2), None]]), bound, deadline,
                              120 * nodes, learned, None, first=first)
                     first = False
+    elif part == "loss":
+        _, _, cache, know, reply, (bound, reorder, wide), src = item
+        base.update({"cache": cache, "know": know, "reply": reply, "lossy": reorder})
+        learned = _learn(topo, know) if cache in ("warm", "rwarm", "rcold") else None
+        first = True
+        for (d1, p, d2) in loss_scenarios(ref, src, wide):
+            if time.time() > deadline:
+                acc.cap("deadline inside a shard of the lost-announcement part")
+                return acc
+            _explore(acc, ref, dict(base, sends=[[src, list(d1), None], [p, list(d2), None], [src, list(d1), None]], waves=[0, 1, 2]),
+                     bound, deadline, 120 * nodes, learned, None, first=first)
+            first = False
     elif part == "craft":
         _, _, know, bound, src = item
         base.update({"cache": "warm", "know": know, "reply": "now"})
@@ -651,7 +728,7 @@ def _maker(ref, case, learned, tables):
     late = case["cache"] in NetSystem.LATE
 
     def make():
-        s = NetSystem(topo, case["cache"], case["know"], case["reply"], tables=tables, learned=learned)
+        s = NetSystem(topo, case["cache"], case["know"], case["reply"], tables=tables, learned=learned, lossy=case.get("lossy"))
         s.start()
 
         def hand_down(wave):
@@ -681,7 +758,13 @@ def _label(part, case, sends, info, frames, ref, sysm):
                                          ":table-pointed-back-through-arrival-lan" if getattr(sysm, "turned_back", 0) else "")
     kinds = "+".join(s[1][0] if s[2] is None else "%s-hop%d" % (s[1][0], s[2]) for s in sends)
     n = len(info["handed_to"])
-    if part in ("tree", "pair") and any(s[0] in ref.app_router for s in sends):
+    if part == "loss":
+        if not info["lost"]:
+            wire = "nothing-lost"
+        else:
+            wire = "announcement-lost:" + ("nobody-had-to-wait" if not info["shown"] else
+                                           "way-shown-by-" + "+".join(sorted(set(x or "nothing" for x in info["shown"]))))
+    elif part in ("tree", "pair") and any(s[0] in ref.app_router for s in sends):
         wire = "from-a-routers-application"
     elif part == "tree":
         wire = "wire=clause6" if all(legs_match(frames, ref, s[0], s[1], REQ_APDU_HDR + s[3]) for s in sends) else "wire-differs"
@@ -719,6 +802,14 @@ def _explore(acc, ref, case0, bound, deadline, max_steps, learned, tables, first
             acc.add_info("of those in topologies where a router carries an application (n=%d)" % len(ref.nets))
         if case0["cache"] in NetSystem.LATE:
             acc.add_info("of those with routers that come up after the first request (%s, n=%d)" % (case0["cache"], len(ref.nets)))
+        if info["lost"]:
+            acc.add_info("of those with a lost I-Am-Router-To-Network")
+            acc.add_info("requests for a network whose announcement may have been lost: way shown to the originator by routed traffic",
+                         info["shown"].count("routed-traffic"))
+            acc.add_info("requests for a network whose announcement may have been lost: way shown by another announcement",
+                         info["shown"].count("announcement"))
+            acc.add_info("requests for a network whose announcement may have been lost: way never shown (may wait for ever, not judged)",
+                         info["left_waiting"])
         acc.add_info("frames forwarded by routers", info["forwarded"])
         acc.add_info("of those released by a router after it had held them for path discovery", info["held"])
         if problems:
@@ -784,14 +875,14 @@ def replay(case):
         max_steps = frame_bound + REPLY_ALLOWANCE
     else:
         frame_bound = None
-        max_steps = (120 if (part == "pair" or case["cache"] in NetSystem.LATE) else 60) * nodes
+        max_steps = (120 if (part in ("pair", "loss") or case["cache"] in NetSystem.LATE) else 60) * nodes
     make, sends = _maker(ref, case, learned, tables)
     sysm, points = run_execution(make, tuple(case.get("choices", ())), max_steps)
     problems, info = judge(sysm, ref, part, sends, frame_bound, case.get("waves"), case["cache"])
     frames = info["frames"]
-    text = "topology=%r\ntables=%s population=%s reply=%s requests=%r\nschedule=%r\nwire (%d frames)=%s\nhanded up=%r\nswallowed=%r\nproblems=%r%s" % (
+    text = "topology=%r\ntables=%s population=%s reply=%s requests=%r\nschedule=%r\nlost on the wire (serials)=%r\nwire (%d frames)=%s\nhanded up=%r\nswallowed=%r\nproblems=%r%s" % (
         topo, case["cache"], case["know"], case["reply"], case["sends"],
-        explorer.labels(points)[:80], len(frames), "\n   ".join([""] + [repr(_show(f)) for f in frames[:40]]),
+        explorer.labels(points)[:80], list(sysm.dropped), len(frames), "\n   ".join([""] + [repr(_show(f)) for f in frames[:40]]),
         sysm.deliveries[:40], sysm.swallowed()[:10], [p for p, _ in problems],
         "\nreported, not judged=%r" % (info["reported"],) if info["reported"] else "")
     return not problems, text
